@@ -309,9 +309,28 @@ pub fn arena_regular_chunk() -> usize {
     })
 }
 
+/// Granularity of the chunks the arena under test creates for allocations
+/// larger than its regular chunk, measured once per process (a fresh arena is
+/// asked for one byte more than the regular chunk).
+pub fn arena_large_granule() -> usize {
+    static G: std::sync::OnceLock<usize> = std::sync::OnceLock::new();
+    *G.get_or_init(|| {
+        let regular = arena_regular_chunk();
+        let mut arena = ByteArena::new();
+        arena.ensure_capacity(regular + 1);
+        arena.remaining().saturating_sub(regular).clamp(4096, regular)
+    })
+}
+
+/// The largest chunk a run whose largest single allocation was
+/// `largest_alloc` bytes can have made the arena create.
+pub fn arena_chunk_bound(largest_alloc: usize) -> usize {
+    let g = arena_large_granule();
+    arena_regular_chunk().max(largest_alloc.div_ceil(g) * g)
+}
+
 pub fn lag_bound(largest_alloc: usize, m2: usize) -> usize {
-    let chunk = arena_regular_chunk().max(largest_alloc.div_ceil(4096) * 4096);
-    chunk + m2 + 2
+    arena_chunk_bound(largest_alloc) + m2 + 2
 }
 
 struct Run<'p> {
@@ -582,6 +601,10 @@ impl Run<'_> {
                 self.push("C09", "C09.encoder_lag", format!("encoder holds {} unconsumable bytes, bound {}", lag, lag_bound(largest_alloc, m2)), i);
             }
             if let Err((p, inv, d)) = check_memory(&c, &[], "encoder", log) {
+                if p == "C05" {
+                    // What the consumer offers is not a prefix of anything if it is not there any more.
+                    self.push("C09", "C09.consumer_exposes_released_memory", d.clone(), i);
+                }
                 self.push(p, inv, d, i);
             }
             let mut sig = LogHash::new();
@@ -846,6 +869,9 @@ impl Run<'_> {
                 vs.push(V { prop: "C09", inv: "C09.decoder_lag", detail: format!("decoder output has {} bytes of which only {} are consumable", c.total_size(), stable_bytes(&c)), at: i });
             }
             if let Err((p, inv, d)) = check_memory(&c, &[wire], "decoder", log) {
+                if p == "C05" {
+                    vs.push(V { prop: "C09", inv: "C09.consumer_exposes_released_memory", detail: d.clone(), at: i });
+                }
                 vs.push(V { prop: p, inv, detail: d, at: i });
             }
         }
@@ -866,6 +892,9 @@ impl Run<'_> {
             }
             let c = dec.consumer();
             if let Err((p, inv, d)) = check_memory(&c, &[wire], "decoder after a decoding error", log) {
+                if p == "C05" {
+                    vs.push(V { prop: "C09", inv: "C09.consumer_exposes_released_memory", detail: d.clone(), at: usize::MAX });
+                }
                 vs.push(V { prop: p, inv, detail: d, at: usize::MAX });
             }
             let mut sink = Vec::new();
@@ -1193,7 +1222,7 @@ impl World for CodecWorld {
     fn execute(&self, plan: &Plan, stats: &mut Stats) -> Outcome {
         let mut log = LogHash::new();
         // Calibrate before anything of this run is numbered or counted.
-        let _ = arena_regular_chunk();
+        let _ = arena_large_granule();
         start_run_chunk_numbering();
         let base = (ByteArena::num_live_chunks(), ByteArena::num_live_bytes(), owning_iovec::verif::live_totals());
         let mut run = Run {
@@ -1274,11 +1303,28 @@ pub struct LongWorld;
 pub const LONG_KINDS: &[&str] = &["burst"];
 
 fn schedule_is_small(s: u64) -> bool {
-    s == 5 || s == 7
+    s == 5 || s == 7 || s == 8
+}
+
+/// A one-byte pool slice holding `b`.
+fn lone_byte(b: u8) -> &'static [u8] {
+    static AT: std::sync::OnceLock<[usize; 256]> = std::sync::OnceLock::new();
+    let at = AT.get_or_init(|| {
+        let mut t = [usize::MAX; 256];
+        for (i, &x) in pool().iter().enumerate() {
+            if t[x as usize] == usize::MAX {
+                t[x as usize] = i;
+            }
+        }
+        t
+    });
+    let i = at[b as usize];
+    assert!(i != usize::MAX, "harness: byte missing from the pool");
+    &pool()[i..i + 1]
 }
 
 pub fn footprint_bound(largest_alloc: usize, objects: usize) -> usize {
-    objects * 4 * arena_regular_chunk().max(largest_alloc.div_ceil(4096) * 4096)
+    objects * 4 * arena_chunk_bound(largest_alloc)
 }
 
 impl World for LongWorld {
@@ -1305,7 +1351,7 @@ impl World for LongWorld {
         )
     }
     fn rule(&self) -> &'static str {
-        "one run = one long stream (64 MiB quick, up to 512 MiB thorough) fed in pieces drawn from a per-run schedule (fixed 1000 B, uniform, large with one-byte bursts, exact chunk size), per-run method mix, payload class (zeros keep chunks open for 64008 bytes, dense closes them constantly) and drain policy; every call is followed by the lag, footprint and content checks; non-trivial = at least 1000 calls; distinct = distinct knob vector"
+        "one run = one long stream (64 MiB quick, up to 512 MiB thorough) fed in pieces drawn from a per-run schedule (fixed 1000 B, uniform, large with one-byte bursts, exact chunk size, small packets, multi-MiB calls, a trickling flaky source, blocks separated by calls that carry one lone delimiter byte), per-run method mix, payload class (zeros keep chunks open for 64008 bytes, dense closes them constantly) and drain policy; every call is followed by the lag, footprint and content checks; non-trivial = at least 1000 calls; distinct = distinct knob vector"
     }
     fn generate(&self, seed: u64, index: u64, ask: Ask) -> Plan {
         let mut rng = Rng::new(crate::prng::mix(&[seed, 0x10c6, index]));
@@ -1316,7 +1362,7 @@ impl World for LongWorld {
         // Stratified by run index so that every batch covers the piece
         // schedules x arena ownership x input-method mixes that matter.
         let lane = index / 4 * 3 + index % 4; // indices with index % 4 == 3 are reader logs
-        knobs.insert("schedule".into(), lane % 8);
+        knobs.insert("schedule".into(), lane % 9);
         let method_sets = [4u64, 15, 8, 5, 2, 1, 12, 3];
         knobs.insert("methods".into(), method_sets[((lane / 12) % 8) as usize]);
         knobs.insert("dec_methods".into(), [2u64, 7, 1, 4][((lane / 3) % 4) as usize]);
@@ -1342,7 +1388,7 @@ impl World for LongWorld {
     }
     fn execute(&self, plan: &Plan, stats: &mut Stats) -> Outcome {
         let mut log = LogHash::new();
-        let _ = arena_regular_chunk();
+        let _ = arena_large_granule();
         let base = (ByteArena::num_live_chunks(), ByteArena::num_live_bytes(), owning_iovec::verif::live_totals());
         let mut vs: Vec<V> = Vec::new();
         let mut calls = 0u64;
@@ -1411,6 +1457,7 @@ fn long_run(plan: &Plan, stats: &mut Stats, log: &mut LogHash, vs: &mut Vec<V>, 
     let mut max_lag = 0usize;
     let mut max_live = 0usize;
     let mut burst_left = 0u32;
+    let mut phase = 0u64;
     let mut wire_piece: Vec<u8> = Vec::new();
     let mut out_piece: Vec<u8> = Vec::new();
     let push_v = |vs: &mut Vec<V>, prop: &'static str, inv: &'static str, detail: String| {
@@ -1449,19 +1496,36 @@ fn long_run(plan: &Plan, stats: &mut Stats, log: &mut LogHash, vs: &mut Vec<V>, 
                 5 => *rng.pick(&[32usize, 32, 48, 100]),
                 // A trickling, flaky source: see the read below.
                 7 => *rng.pick(&[100usize, 100, 7, 300]),
+                // Blocks separated by calls that carry one byte of a delimiter and
+                // nothing else (a call that may produce no output at all).
+                8 => {
+                    phase += 1;
+                    if phase % 2 == 0 {
+                        usize::MAX
+                    } else {
+                        *rng.pick(&[32_768usize, 32_768, 60_000, 1000])
+                    }
+                }
                 // Very large single calls (more than the largest arena chunk).
                 _ => *rng.pick(&[1usize << 20, (1 << 20) + 4097, 3 << 19, 2 << 20, 70_000, 1000]),
             }
         }
-        .min(total - fed);
-        let (off, len) = if len > rlen / 2 {
-            // Huge pieces span pool regions (any alphabet mix).
-            let len = len.min(POOL_SIZE - 1);
-            (rng.below((POOL_SIZE - len) as u64) as usize, len)
+        ;
+        let piece: &'static [u8] = if len == usize::MAX {
+            stats.bump("probe.lone_delimiter_byte_call");
+            lone_byte(if rng.chance(3, 4) { 0xFE } else { 0xFD })
         } else {
-            (roff + (rng.below((rlen - len) as u64) as usize), len)
+            let len = len.min(total - fed);
+            let (off, len) = if len > rlen / 2 {
+                // Huge pieces span pool regions (any alphabet mix).
+                let len = len.min(POOL_SIZE - 1);
+                (rng.below((POOL_SIZE - len) as u64) as usize, len)
+            } else {
+                (roff + (rng.below((rlen - len) as u64) as usize), len)
+            };
+            &pool()[off..off + len]
         };
-        let piece: &'static [u8] = &pool()[off..off + len];
+        let len = piece.len();
         let m = if schedule == 7 { 3 } else { pick_bit(&mut rng, methods, 4) };
         if schedule == 7 && *calls % 2 == 1 {
             // The source is not ready: a large read that fails before delivering
@@ -1553,26 +1617,36 @@ fn long_run(plan: &Plan, stats: &mut Stats, log: &mut LogHash, vs: &mut Vec<V>, 
         // Feed the decoder.
         if !wire_piece.is_empty() {
             let dm = pick_bit(&mut rng, dec_methods, 3);
-            let ok = match dm {
-                0 => dec.decode_copy(&wire_piece).is_ok(),
-                _ => {
-                    let (sc, tail) = script_from(script(&mut rng), false);
-                    let mut reader = SimReader::new(&wire_piece, sc, tail);
-                    let att = NonZeroUsize::new(usize::MAX).unwrap();
-                    largest_alloc = largest_alloc.max(wire_piece.len());
-                    if dm == 1 {
-                        let s = if separate {
-                            reader_arena2.read_n(&mut reader, wire_piece.len(), att)
-                        } else {
-                            dec.read_n(&mut reader, wire_piece.len(), att)
-                        }
-                        .expect("harness: fault-free reader failed");
-                        dec.decode_anchored(s).is_ok()
-                    } else {
-                        dec.decode_read(&mut reader, wire_piece.len(), att).is_ok()
-                    }
+            // Schedule 8 hands the decoder the first byte on its own: after a
+            // full drain that is one byte of a chunk header, a call that
+            // produces no output.
+            let cut = if schedule == 8 && wire_piece.len() > 1 { 1 } else { 0 };
+            let mut ok = true;
+            for part in [&wire_piece[..cut], &wire_piece[cut..]] {
+                if part.is_empty() || !ok {
+                    continue;
                 }
-            };
+                ok = match dm {
+                    0 => dec.decode_copy(part).is_ok(),
+                    _ => {
+                        let (sc, tail) = script_from(script(&mut rng), false);
+                        let mut reader = SimReader::new(part, sc, tail);
+                        let att = NonZeroUsize::new(usize::MAX).unwrap();
+                        largest_alloc = largest_alloc.max(part.len());
+                        if dm == 1 {
+                            let s = if separate {
+                                reader_arena2.read_n(&mut reader, part.len(), att)
+                            } else {
+                                dec.read_n(&mut reader, part.len(), att)
+                            }
+                            .expect("harness: fault-free reader failed");
+                            dec.decode_anchored(s).is_ok()
+                        } else {
+                            dec.decode_read(&mut reader, part.len(), att).is_ok()
+                        }
+                    }
+                };
+            }
             if !ok {
                 push_v(vs, "C09", "C09.stream_rejected", format!("decoder rejected the streamed output at wire offset {}", wire_total));
                 break;
